@@ -314,14 +314,16 @@ public:
 	}
 	void nl_clear()
 	{
+		// empty everything first: re-creating the tables allocates and may throw,
+		// the indexes and the counters must agree with each other by then
 		timeout.clear();
 		lru.clear();
 		primary.clear();
-		primary.rehash(limit);
 		triggers.clear();
-		triggers.rehash(limit);
 		size = 0;
 		triggers_count = 0;
+		primary.rehash(limit);
+		triggers.rehash(limit);
 	}
 	virtual void clear()
 	{
